@@ -203,3 +203,14 @@ claim("C14", "other",
       "invariant to weight scale, and reduce to the closed form for zero standard deviations; unknown distribution names raise.",
       "Trusted: scipy.spatial.Voronoi, shapely, numpy Generator; the clipping oracle. Bounds: 4-11 sensors inside 4 hull families, 2-7 generators x 1-400 realisations.",
       "contract lemmas (z3) + bounded native comparison with an independent geometric oracle (geometry not within reach of contracts)", "DESIGN.md 5/C14")
+
+claim("C19", "other",
+      "Structural obligations on the real source remove the schedule quantifier instead of exploring it: _process_hvsr replaces both settings "
+      "arguments by deep copies before their first use, reads only its own file and runs read -> preprocess -> process -> write(<stem>.csv); "
+      "cli loads both settings objects from file and issues exactly one Pool.starmap task per file name; none of the 13 modules on the path "
+      "writes module-level state. A task's output is therefore a function of its file and of the settings content as loaded, whatever the "
+      "chunking, order or worker count (A-POOL). Bounded (labelled, samples schedules): the real entry point on 3 generated miniSEED files "
+      "(different sampling rates and lengths) for 4 / 36 order x --nproc x settings-family schedules, every CSV byte-identical to the "
+      "single-file pipeline run in a fresh interpreter with freshly loaded settings.",
+      "Trusted: A-POOL, deepcopy, numpy/scipy determinism, the AST matcher.",
+      "structural contract obligations (history independence by construction) + bounded runs of the real CLI", "DESIGN.md 5/C19")
